@@ -733,6 +733,18 @@ fn run_case(case: &str) -> String {
         "Xhang" => loop {
             std::hint::black_box(0u64);
         },
+        "Xprobe" => {
+            let mut v: Vec<u8> = vec![0; 256 << 20];
+            for i in (0..v.len()).step_by(4096) {
+                v[i] = 1;
+            }
+            fn deep(n: u64) -> u64 {
+                let a = [n; 64];
+                if n == 0 { 0 } else { deep(n - 1) + std::hint::black_box(a)[7] }
+            }
+            // 1000 frames of >= 512 bytes: at least a quarter of the 2 MiB stack
+            return format!("ok probe {} {} m=0 t=0", std::hint::black_box(&v)[4096], deep(std::hint::black_box(1000)));
+        }
         "Xsleep" => loop {
             std::thread::sleep(std::time::Duration::from_secs(1));
         },
@@ -774,16 +786,67 @@ fn run_case(case: &str) -> String {
 // ------------------------------------------------------------------ child
 /// status without the measurement fields
 fn outcome_only(r: &str) -> String {
-    r.split_whitespace().filter(|f| !(f.starts_with("m=") || f.starts_with("t=") || f.starts_with("dc="))).collect::<Vec<_>>().join(" ")
+    r.split_whitespace().filter(|f| !(f.starts_with("m=") || f.starts_with("t=") || f.starts_with("dc=") || f.starts_with("h="))).collect::<Vec<_>>().join(" ")
 }
-fn worker(stack: usize) -> (std::sync::mpsc::Sender<String>, std::sync::mpsc::Receiver<String>) {
+/// Stack high-water mark of one decode, by fill pattern: the unused part of the thread's stack (from
+/// `SLACK` above its lower end up to just below the current frame) holds the pattern; after the decode the
+/// lowest byte that no longer does is how deep the stack went.  Only what the decode dirtied is refilled.
+const STACK_PAT: u8 = 0xA5;
+const STACK_SLACK: usize = 96 << 10; // guard page, TLS block and rounding at the two ends of the mapping
+static PAT_PAGE: [u8; 4096] = [STACK_PAT; 4096];
+#[inline(never)]
+fn here() -> usize {
+    let x = 0u8;
+    std::hint::black_box(&x) as *const u8 as usize
+}
+#[inline(never)]
+fn stack_fill(lo: usize, hi: usize) {
+    if hi > lo {
+        // SAFETY: [lo, hi) lies inside this thread's own stack mapping, below every live frame (hi is 2 KiB
+        // below the caller's frame; memset's own frame is far smaller)
+        unsafe { std::ptr::write_bytes(lo as *mut u8, STACK_PAT, hi - lo) };
+    }
+}
+/// lowest address in [lo, hi) that does not hold the pattern (hi if none)
+#[inline(never)]
+fn stack_lowest_dirty(lo: usize, hi: usize) -> usize {
+    let mut a = lo;
+    while a + 4096 <= hi {
+        // SAFETY: as above; read only
+        let page = unsafe { std::slice::from_raw_parts(a as *const u8, 4096) };
+        if page != &PAT_PAGE[..] {
+            break;
+        }
+        a += 4096;
+    }
+    while a < hi && unsafe { *(a as *const u8) } == STACK_PAT {
+        a += 1;
+    }
+    a
+}
+fn worker(stack: usize, measure: bool) -> (std::sync::mpsc::Sender<String>, std::sync::mpsc::Receiver<String>) {
     let (tx, rx) = std::sync::mpsc::channel::<String>();
     let (rtx, rrx) = std::sync::mpsc::channel::<String>();
     std::thread::Builder::new()
         .stack_size(stack)
         .spawn(move || {
+            let top = here();
+            let lo = (top.saturating_sub(stack) + STACK_SLACK + 4095) & !4095;
+            let hi = (top - 4096) & !4095; // the loop's own frames stay above
+            if measure {
+                stack_fill(lo, hi);
+            }
             for c in rx {
-                if rtx.send(run_case(&c)).is_err() {
+                let r = run_case(&c);
+                let r = if measure {
+                    let d = stack_lowest_dirty(lo, hi);
+                    stack_fill(d, hi);
+                    // bytes of stack below the thread's entry frame; saturates at stack - SLACK
+                    format!("{} h={}", r, top - d)
+                } else {
+                    r
+                };
+                if rtx.send(r).is_err() {
                     break;
                 }
             }
@@ -801,8 +864,8 @@ fn child_main(file: &str, start: usize, end: usize, bigonly: bool) {
     use std::io::BufRead as _;
     let f = std::io::BufReader::new(std::fs::File::open(file).unwrap());
     let cases: Vec<String> = f.lines().skip(start).take(end.saturating_sub(start)).map(|l| l.unwrap()).collect();
-    let (btx, brx) = worker(2 << 20);
-    let (stx, srx) = worker(small_stack());
+    let (btx, brx) = worker(2 << 20, false);
+    let (stx, srx) = worker(small_stack(), true);
     let out = std::io::stdout();
     {
         let mut o = out.lock();
@@ -815,18 +878,21 @@ fn child_main(file: &str, start: usize, end: usize, bigonly: bool) {
             Ok(r) => r,
             Err(_) => std::process::abort(),
         };
-        let small = if bigonly || c.starts_with('X') {
-            "-"
+        // s= the second run on the small stack; h= its stack high-water mark (bytes)
+        let (small, hwm) = if bigonly || c.starts_with('X') {
+            ("-", "-".to_string())
         } else {
             stx.send(c.clone()).unwrap();
             match srx.recv() {
-                Ok(r2) if outcome_only(&r2) == outcome_only(&r) => "ok",
-                Ok(_) => "differ",
+                Ok(r2) => {
+                    let h = r2.rsplit_once(" h=").map(|(_, h)| h.to_string()).unwrap_or_else(|| "-".into());
+                    (if outcome_only(&r2) == outcome_only(&r) { "ok" } else { "differ" }, h)
+                }
                 Err(_) => std::process::abort(),
             }
         };
         let mut o = out.lock();
-        writeln!(o, "{} {} s={}", start + k, r, small).unwrap();
+        writeln!(o, "{} {} s={} h={}", start + k, r, small, hwm).unwrap();
         o.flush().unwrap();
     }
 }
@@ -942,7 +1008,29 @@ impl Child {
 }
 fn env_signal(how: &str) -> bool {
     // killed from outside (OOM killer, operator): not something the decoders do to themselves
+    // also: SIGBUS (a mapping that could not be backed) and a plain exit status (the harness's own
+    // unwrap / a closed pipe: the decoders cannot exit the process; a panic in them is caught, an abort or a
+    // stack overflow is a signal)
     how.contains("SIGKILL") || how.contains("SIGTERM") || how.contains("signal:_9") || how.contains("signal:_15")
+        || how.contains("SIGBUS") || how.contains("signal:_7") || how.starts_with("exit_status")
+}
+/// Before any case: can a child of this environment (inherited limits, overcommit policy) allocate and
+/// touch 256 MiB and use a good part of its 2 MiB stack?  If not, an abort would say nothing about the decoders.
+fn preflight(exe: &std::path::Path, infile: &str) -> bool {
+    let probe = format!("{}.probe", infile);
+    if std::fs::write(&probe, "Xprobe rl:-,mid:0 2n 84\n").is_err() {
+        return false;
+    }
+    let ok = match Child::start(exe, &probe, 0, 1, true) {
+        None => false,
+        Some(mut c) => {
+            let g = c.get(120);
+            c.stop();
+            matches!(g, Got::Line(l) if l.contains(" ok probe "))
+        }
+    };
+    let _ = std::fs::remove_file(&probe);
+    ok
 }
 /// Second opinion on a case that made a child die / stall: the case alone in a fresh child with a
 /// generous timeout; if it dies again, once more without the small-stack run to tell which of the
@@ -995,6 +1083,9 @@ fn run_in_children(cases: &[String], infile: &str, per_input_timeout_s: u64, wor
     std::fs::write(infile, cases.join("\n") + "\n").unwrap();
     let exe = std::env::current_exe().unwrap();
     let n = cases.len();
+    if !preflight(&exe, infile) && !preflight(&exe, infile) {
+        return vec!["notrun env-preflight m=0 t=0 s=-".to_string(); n];
+    }
     let chunk = n.div_ceil(workers.max(1));
     let mut handles = vec![];
     for w in 0..workers {
@@ -1651,6 +1742,40 @@ fn gen_cases(a: &Args) -> Vec<String> {
         let ft = if r.bool() { FT0.to_string() } else { "rl:4321,mid:1".to_string() };
         cases.push(format!("R {} {}n {}", ft, if r.bool() { 1 } else { 2 }, hex_bytes(&f)));
     }
+    // compression for the other kinds: the (mutated / cut / field-damaged / inflated-count) body behind a
+    // VALID compression layer, so that the damage reaches the body decoders instead of the codec.  Every V
+    // case, one in eight of M, U, F, S; the kind letter stays, the mode says which codec.
+    let mut extra = vec![];
+    for c in &cases {
+        let k = c.as_bytes()[0];
+        let take = match k {
+            b'V' => true,
+            b'M' | b'U' | b'F' | b'S' => r.chance(1, 8),
+            _ => false,
+        };
+        if !take {
+            continue;
+        }
+        let f: Vec<&str> = c.split(' ').collect();
+        if f.len() != 4 || !f[2].ends_with('n') {
+            continue;
+        }
+        let b = unhex(f[3]);
+        // a complete uncompressed frame whose header announces exactly its body
+        if b.len() <= 9 || b.len() > 100_000 || b[1] & 1 == 1 || u32::from_be_bytes([b[5], b[6], b[7], b[8]]) as usize != b.len() - 9 {
+            continue;
+        }
+        let comp = if r.bool() { Compression::Lz4 } else { Compression::Snappy };
+        let mut g = b[..9].to_vec();
+        g[1] |= 1;
+        if scylla_cql::frame::compress_append(&b[9..], comp, &mut g).is_ok() {
+            let l = (g.len() - 9) as u32;
+            g[5..9].copy_from_slice(&l.to_be_bytes());
+            let m = format!("{}{}", &f[2][..1], if comp == Compression::Lz4 { 'l' } else { 's' });
+            extra.push(format!("{} {} {} {}", f[0], f[1], m, hex_bytes(&g)));
+        }
+    }
+    cases.extend(extra);
     cases
 }
 
